@@ -198,8 +198,7 @@ fn prob_metropolis(g: &mut SplitMix64) -> bool {
     let prefix_a: Vec<String> = base.slots[..k].iter().map(|o| format!("{:?}", o)).collect();
     let mut oracle: Result<(), String> = Ok(());
     // --- bond choice: interval of first words that select bond b (fallback word 0 selects bond 0)
-    let anchor = |bb: usize| -> u64 { (((bb as u128) << 64) + (1u128 << 62)) as u64 / 1 }; // placeholder, replaced below
-    let _ = anchor;
+    // a word a quarter into bond bb's interval: inside the accepted part of gen_range's zone
     let anchor = |bb: usize| -> u64 { ((((bb as u128) << 64) + (1u128 << 62)) / nb as u128) as u64 };
     let picked = |x: u64| -> Option<usize> {
         let mut sc = s[..jpick].to_vec();
